@@ -1,5 +1,6 @@
 import Ptn.C03.Model
 import Ptn.C03.Lemmas
+import Ptn.Common.AnalysisIso
 /-! Property theorems for C03 (canonical form): the bookkeeping that makes every non-centre tensor
 an isometry toward the centre.  The numerical content (a QR factor Q is an isometry, the product
 QR is the tensor) is the contract of `numpy.linalg.qr`; compositions of isometries are isometries
@@ -142,6 +143,47 @@ theorem move_gauge (dir : Nat → Option Nat) (path : List Nat) (hnd : path.Nodu
 theorem move_final_centre (c : Nat) (path : List Nat) (x : Nat) :
     finalCentre c (path ++ [x]) = x := by
   simp [finalCentre]
+
+/-! ### From the gauge record to linear algebra (instances of `Ptn.Analysis`, Mathlib)
+
+`canon_gauge` says every non-centre tensor is a QR factor `Q` toward the centre; by the contract of
+`numpy.linalg.qr` each is an isometry.  The embedding of the centre tensor into the full state is
+built from these by products and Kronecker products. -/
+
+open Matrix in
+/-- Composition of isometries along a branch is an isometry. -/
+theorem env_isometry_compose {l m n : Type} [Fintype l] [Fintype m] [Fintype n] [DecidableEq m]
+    [DecidableEq n] (A : Matrix l m ℂ) (B : Matrix m n ℂ) (hA : Aᴴ * A = 1) (hB : Bᴴ * B = 1) :
+    (A * B)ᴴ * (A * B) = 1 :=
+  Ptn.Analysis.isometry_mul A B hA hB
+
+open Matrix Kronecker in
+/-- Independent branches combine by the Kronecker product, again an isometry. -/
+theorem env_isometry_kron {l m p q : Type} [Fintype l] [Fintype m] [Fintype p] [Fintype q]
+    [DecidableEq m] [DecidableEq q] (A : Matrix l m ℂ) (B : Matrix p q ℂ)
+    (hA : Aᴴ * A = 1) (hB : Bᴴ * B = 1) : (A ⊗ₖ B)ᴴ * (A ⊗ₖ B) = 1 :=
+  Ptn.Analysis.isometry_kronecker A B hA hB
+
+open Matrix in
+/-- **Consequently the norm obtained from the centre tensor alone equals the norm of the full
+    state** (`E` = embedding of the centre tensor, `v` = centre tensor as a vector). -/
+theorem centre_norm_eq_full_norm {l m : Type} [Fintype l] [Fintype m] [DecidableEq m]
+    (E : Matrix l m ℂ) (hE : Eᴴ * E = 1) (v : m → ℂ) :
+    star (E *ᵥ v) ⬝ᵥ (E *ᵥ v) = star v ⬝ᵥ v :=
+  Ptn.Analysis.isometry_norm E hE v
+
+open Matrix in
+/-- Shape-keeping mode: zero-padding `Q` and `R` leaves the product unchanged and makes `Q` a
+    partial isometry (its Gram matrix is an orthogonal projector). -/
+theorem keep_mode_padding {l m n p : Type} [Fintype l] [Fintype m] [Fintype n] [Fintype p]
+    [DecidableEq m] (Q : Matrix l m ℂ) (T : Matrix m n ℂ) (hQ : Qᴴ * Q = 1) :
+    fromCols Q (0 : Matrix l p ℂ) * fromRows T (0 : Matrix p n ℂ) = Q * T ∧
+    ((fromCols Q (0 : Matrix l p ℂ))ᴴ * fromCols Q (0 : Matrix l p ℂ)) *
+      ((fromCols Q (0 : Matrix l p ℂ))ᴴ * fromCols Q (0 : Matrix l p ℂ))
+        = (fromCols Q (0 : Matrix l p ℂ))ᴴ * fromCols Q (0 : Matrix l p ℂ) ∧
+    ((fromCols Q (0 : Matrix l p ℂ))ᴴ * fromCols Q (0 : Matrix l p ℂ))ᴴ
+        = (fromCols Q (0 : Matrix l p ℂ))ᴴ * fromCols Q (0 : Matrix l p ℂ) :=
+  Ptn.Analysis.partial_isometry_pad Q T hQ
 
 /-! ### Non-vacuity: chain 0-1-2-3 canonicalised at 1; star -/
 
